@@ -202,8 +202,9 @@ bool ops_core(World &w, const Op &o) {
     hwloc_obj_t obj = sel_obj(R, o.u("o")); bool topo = k == "topo_info";
     if (R.adopted) { r.ev("%s r%d skipped on adopted", k.c_str(), ri); return true; }   // info arrays of an adopted topology live in the read-only mapping; hwloc documents no refusal for these inline calls
     struct hwloc_infos_s *is = topo ? hwloc_topology_get_infos(t) : &obj->infos;
-    static const char *names[] = {"K1", "K2", "Key three", "lstopoStyle", "CoreType", "x"};
-    std::string name = names[o.u("name") % 6], value = sel_string(o.u("v"), 8);
+    // the last four are names the XML importer special-cases for 2.x documents (moved to the topology infos / "KiB" appended): none of that may happen to a 3.x document
+    static const char *names[] = {"K1", "K2", "Key three", "lstopoStyle", "CoreType", "x", "Size", "Backend", "MICMemorySize", "OSName"};
+    std::string name = names[o.u("name") % 10], value = sel_string(o.u("v"), 8);
     Infos before = read_infos(is);
     // the info arrays are observed through the dump (C05/C12/C16 compare them between replicas); the documented return
     // values and array contents of these calls are not part of any property statement and are not judged here
@@ -222,6 +223,7 @@ bool ops_core(World &w, const Op &o) {
   if (k == "set_subtype") {
     hwloc_obj_t obj = sel_obj(R, o.u("o")); bool null = o.u("v") % 5 == 0; std::string v = sel_string(o.u("v"), 8);
     if (o.u("v") % 3 == 1) { v = "NVSwitch"; if (o.u("io") & 1) obj = sel_obj(R, o.u("o"), 4); }   // switch ports for the distances transforms
+    else if (o.u("v") % 7 == 2) { v = "MemoryModule"; null = false; obj = sel_obj(R, o.u("o"), 8); }   // a Misc object the importer's 2.x compatibility code looks for
     errno = 0; int rc = hwloc_obj_set_subtype(t, obj, null ? nullptr : v.c_str()); int e = errno;
     r.ev("set_subtype r%d gp=%llu -> %d", ri, (unsigned long long)obj->gp_index, rc);
     if (R.adopted) { if (rc == 0) viol0(w, "C19", "shm.modify_not_refused", "set_subtype on an adopted topology returned %d errno %d", rc, e); return true; }
